@@ -177,6 +177,15 @@ pub fn op_provide(w: &World, i: usize, who: &str, d0: u128, d1: u128, tol: Value
            "funds": funds_for(&[(a0.clone(), d0), (a1.clone(), d1)])})
 }
 
+/// the same provision with the two assets listed in the opposite order to the pair's own (the contract matches the
+/// listed assets to its reserves by asset, not by position)
+pub fn op_provide_reversed(w: &World, i: usize, who: &str, d0: u128, d1: u128, tol: Value, receiver: Value) -> Value {
+    let mut op = op_provide(w, i, who, d0, d1, tol, receiver);
+    let a = op["assets"].as_array().unwrap().clone();
+    op["assets"] = json!([a[1], a[0]]);
+    op
+}
+
 pub fn op_swap(w: &World, i: usize, who: &str, offer: &Value, amount: u128, bp: Value, ms: Value, to: Value) -> Value {
     if is_native(offer) {
         json!({"op": "pair_swap", "pair": w.pairs[i].addr, "caller": who, "offer": asset(offer, amount), "bp": bp, "ms": ms, "to": to,
@@ -293,8 +302,9 @@ pub fn random_behaviour(r: &mut Rng, t: &mut Trace, steps: usize) {
                 }
                 let tol = st(*r.pick(&[D18 / 100, D18 / 1000, D18 / 10]));
                 let d = 5000 + r.below(1 << 20) as u128;
-                for (d0, d1) in [(d, d), (d, d * 16), (d, d * 4)] {
-                    let op = op_provide(&w, i, "alice", d0, d1, tol.clone(), nul());
+                // (both listings of the off-ratio provisions: the guard compares each deposit with its own reserve)
+                for (k, (d0, d1)) in [(d, d), (d, d * 16), (d * 4, d), (d, d * 4)].iter().enumerate() {
+                    let op = if k % 2 == 0 { op_provide_reversed(&w, i, "alice", *d0, *d1, tol.clone(), nul()) } else { op_provide(&w, i, "alice", *d0, *d1, tol.clone(), nul()) };
                     t.run(&mut w, op);
                 }
             }
@@ -338,7 +348,7 @@ pub fn random_behaviour(r: &mut Rng, t: &mut Trace, steps: usize) {
                     _ => nul(),
                 };
                 let recv = opt_to(r);
-                let op = op_provide(&w, i, who, d0, d1, tol, recv);
+                let op = if r.chance(1, 3) { op_provide_reversed(&w, i, who, d0, d1, tol, recv) } else { op_provide(&w, i, who, d0, d1, tol, recv) };
                 t.run(&mut w, op);
             }
             14..=23 => {
@@ -779,6 +789,15 @@ pub fn matrix_behaviour(r: &mut Rng, t: &mut Trace) {
     for d in ["UA", "UB", "uax"] {
         setup["denoms"].as_array_mut().unwrap().push(json!({"denom": d, "decimals": 6, "register": false}));
     }
+    // a fifth pair whose two assets carry the same identifier string: the cw20 token at contract2 and the registered
+    // bank denom "contract2" (the factory only refuses two identical asset infos)
+    for d in setup["denoms"].as_array_mut().unwrap().iter_mut() {
+        if d["denom"] == "contract2" { d["register"] = json!(true); }
+    }
+    {
+        let (a, b) = if r.chance(1, 2) { (tok("@tokA"), nat("contract2")) } else { (nat("contract2"), tok("@tokA")) };
+        setup["pairs"].as_array_mut().unwrap().push(json!({"a": a, "b": b, "commission": st(3_000_000_000_000_000), "whitelist": ["alice"], "min0": st(0), "min1": st(0)}));
+    }
     let mut w = World::build(&setup);
     t.reset(&w, &setup);
     let np = w.pairs.len();
@@ -842,6 +861,17 @@ pub fn matrix_behaviour(r: &mut Rng, t: &mut Trace) {
                         t.run(&mut w, op);
                     }
                 }
+            }
+        }
+        // --- C09 on swaps whose return rounds to zero (a unit or two against the three times larger reserve, accepted
+        //     without any payout): the declared amount must still equal the attached funds
+        for delivered in infos.iter() {
+            if !is_native(delivered) { continue; }
+            let d = id_of(delivered);
+            for (declared, funds) in [(1u128, json!([])), (1, json!([[d, st(2)]])), (1, json!([[d, st(1)]])), (2, json!([[d, st(amount)]])), (2, json!([[d, st(1)]]))] {
+                let op = json!({"op": "pair_swap", "pair": paddr, "caller": "carol", "offer": asset(delivered, declared),
+                                "bp": nul(), "ms": nul(), "to": nul(), "funds": funds});
+                t.run(&mut w, op);
             }
         }
         // --- C09 on provide: declared x attached for each native asset
@@ -1144,7 +1174,9 @@ pub fn registry_behaviour(r: &mut Rng, t: &mut Trace, max_pairs: usize, index: u
     }
     let nd = r.range(9, 14) as usize;
     let denoms: Vec<&str> = denoms.into_iter().take(nd).collect();
-    let dj: Vec<Value> = denoms.iter().map(|d| json!({"denom": d, "decimals": r.below(19), "register": !r.chance(1, 8)})).collect();
+    let mut dj: Vec<Value> = denoms.iter().map(|d| json!({"denom": d, "decimals": r.below(19), "register": !r.chance(1, 8)})).collect();
+    // contract2 is the address the first cw20 token gets
+    dj.push(json!({"denom": "contract2", "decimals": 6, "register": false}));
     let tokens = json!([{"name": "tokA", "decimals": 6}, {"name": "tokB", "decimals": 18}, {"name": "tokC", "decimals": 0}]);
     let setup = json!({"users": ["alice", "owner", "mallory"], "owner": "owner", "init": st(1u128 << 60), "denoms": dj, "tokens": tokens,
                        "pairs": [], "allow": false, "light": true});
@@ -1239,6 +1271,41 @@ pub fn registry_behaviour(r: &mut Rng, t: &mut Trace, max_pairs: usize, index: u
         let v = r.pick(&assets).clone();
         t.run(&mut w, json!({"op": "q_fac_pair", "infos": [u, v]}));
     }
+    // a bank denom spelled exactly like a cw20 token's address is registered, the token sits in pairs (possibly together
+    // with that denom), and the denom is re-registered: only records holding the DENOM may change
+    {
+        let alias = w.tokens[0].clone();
+        // (a denom can only be registered while the factory holds some of it)
+        let fac = w.factory.clone();
+        t.run(&mut w, json!({"op": "bank_send", "caller": "alice", "dest": fac, "coins": [[alias, st(1)]]}));
+        t.run(&mut w, json!({"op": "fac_add_native", "caller": "owner", "denom": alias, "decimals": 4}));
+        let partner = nat(denoms[0]);
+        for infos in [json!([tok(&alias), partner.clone()]), json!([nat(&alias), tok(&alias)]), json!([tok(&w.tokens[1]), nat(&alias)])] {
+            t.run(&mut w, json!({"op": "fac_create_pair", "caller": "owner", "infos": infos, "commission": nul(), "whitelist": ["alice"], "min0": st(0), "min1": st(0)}));
+        }
+        for dec in [11, 4, 0, 13] {
+            t.run(&mut w, json!({"op": "fac_add_native", "caller": "owner", "denom": alias, "decimals": dec}));
+            t.run(&mut w, json!({"op": "q_native_decimals", "denom": alias}));
+        }
+        t.run(&mut w, json!({"op": "q_fac_pair", "infos": [nat(&alias), tok(&alias)]}));
+    }
+    // ownership is handed over: the former owner's re-registration must fail, the new owner's must reach every pair
+    // holding the denom (first and second position), and the new owner can create pairs
+    t.run(&mut w, json!({"op": "fac_update_config", "caller": "owner", "new_owner": "mallory", "token_code_id": nul(), "pair_code_id": nul()}));
+    t.run(&mut w, json!({"op": "q_fac_config"}));
+    for (i, d) in denoms.iter().enumerate().take(4) {
+        let who = if i == 0 { "owner" } else { "mallory" };
+        t.run(&mut w, json!({"op": "fac_add_native", "caller": who, "denom": d, "decimals": r.below(19)}));
+        t.run(&mut w, json!({"op": "q_native_decimals", "denom": d}));
+    }
+    for who in ["owner", "mallory"] {
+        let x = r.pick(&assets).clone();
+        let y = r.pick(&assets).clone();
+        t.run(&mut w, json!({"op": "fac_create_pair", "caller": who, "infos": [x.clone(), y.clone()], "commission": st(pal_rate(r).min(D18)),
+                              "whitelist": ["alice", "mallory"], "min0": st(2), "min1": st(3)}));
+        t.run(&mut w, json!({"op": "q_fac_pair", "infos": [y, x]}));
+    }
+    t.run(&mut w, json!({"op": "q_fac_walk", "limit": json!(9)}));
 }
 
 // ---------------------------------------------------------------------------------------------
